@@ -1141,7 +1141,8 @@ func (c *checker) cases(v *variant, kc *keyCfg) []hcase {
 	// D. transport error
 	out = append(out, hcase{label: "transport-error", sc: script{then: step{neterr: true, readErr: -1}}})
 	// E. body read error mid-stream
-	cuts := map[int]bool{0: true, 1: true, len(honest) / 2: true, len(honest) - 1: true}
+	// len(honest): the whole JSON value arrives and the read then fails (a response cut short of its declared length)
+	cuts := map[int]bool{0: true, 1: true, len(honest) / 2: true, len(honest) - 1: true, len(honest): true}
 	if th {
 		for _, e := range tokenEnds(honest) {
 			cuts[e-1] = true
